@@ -110,7 +110,7 @@ def replay(pid, path):
     out = os.path.join(w, "replay.ndjson")
     with open(out, "w") as f:
         for e in rp["trace"]:
-            f.write(json.dumps(e) + "\n")
+            f.write(json.dumps(e, separators=(",", ":")) + "\n")
     vb = vlib.validate_batch("Trace_ClusterAuth", "Trace_ClusterAuth.cfg", out, "replay_" + pid)
     if vb["violations"]:
         log("recorded trace is rejected by the specification at: %s" % (vb["violations"][0].get("lenient_event") or vb["violations"][0].get("strict_event")))
